@@ -296,6 +296,25 @@ theorem zero_rate (normM : Bool) (t tcc md : ℝ) (stars : List (StarBin ℝ)) (
     · intro x hx; simp only [List.mem_map] at hx; obtain ⟨b, _, rfl⟩ := hx; split <;> simp
     · intro r hr; simp only [List.mem_map] at hr; obtain ⟨b, _, rfl⟩ := hr; simp
 
+/-- **witness of the known finding `C03-nothing-depletable`**: when no star bin is depleted and no populated remnant bin lies below the
+    depletion mass, every entry of the post-collapse derivative is zero — the requested rate is not removed -/
+theorem nothing_depletable (normM : Bool) (rate md : ℝ) (stars : List (StarBin ℝ)) (rems : List (ℝ × ℝ))
+    (hs : ∀ b ∈ stars, b.depl md = false) (hr : ∀ r ∈ rems, ¬ (0 < r.1 ∧ r.2 / r.1 < md)) :
+    (∀ x ∈ (escPost normM rate md stars rems).1, x = 0) ∧ (∀ x ∈ (escPost normM rate md stars rems).2.1, x = 0) ∧
+    (∀ r ∈ (escPost normM rate md stars rems).2.2, r = (0, 0)) := by
+  rw [escPost_real]
+  refine ⟨?_, ?_, ?_⟩
+  · intro x hx
+    obtain ⟨b, hb, rfl⟩ := List.mem_map.1 hx
+    rw [(post_support_star md b (hs b hb)).1, mul_zero]
+  · intro x hx
+    obtain ⟨b, hb, rfl⟩ := List.mem_map.1 hx
+    simp [hs b hb]
+  · intro x hx
+    obtain ⟨r, hrm, rfl⟩ := List.mem_map.1 hx
+    obtain ⟨h1, h2⟩ := post_support_rem md r (hr r hrm)
+    rw [h1, h2, mul_zero]
+
 structure Statement : Prop where
   /-- the model's entries are the expressions of `_derivs_esc` in the source now (pre- and post-collapse, both normalisations) -/
   source_pre : ∀ (normM : Bool) (rate : ℝ) (stars : List (StarBin ℝ)) (rems : List (ℝ × ℝ)),
@@ -353,6 +372,11 @@ structure Statement : Prop where
       (escape part, equal to the requested rate by `pre_N`/`post_N`) satisfies `N(t1) = N(t0) + ∫ rate` along an exact solution -/
   integrated : ∀ (Ntot rate : ℝ → ℝ) (t0 t1 : ℝ), t0 ≤ t1 → ContinuousOn rate (Set.Icc t0 t1) →
     (∀ t ∈ Set.Icc t0 t1, HasDerivAt Ntot (0 + rate t) t) → Ntot t1 = Ntot t0 + ∫ t in t0..t1, rate t
+  /-- the identities above need a non-zero normalisation; without any depletable bin nothing is removed (known finding) -/
+  nothing_depletable : ∀ (normM : Bool) (rate md : ℝ) (stars : List (StarBin ℝ)) (rems : List (ℝ × ℝ)),
+    (∀ b ∈ stars, b.depl md = false) → (∀ r ∈ rems, ¬ (0 < r.1 ∧ r.2 / r.1 < md)) →
+    (∀ x ∈ (escPost normM rate md stars rems).1, x = 0) ∧ (∀ x ∈ (escPost normM rate md stars rems).2.1, x = 0) ∧
+    (∀ r ∈ (escPost normM rate md stars rems).2.2, r = (0, 0))
   zero : ∀ (normM : Bool) (t tcc md : ℝ) (stars : List (StarBin ℝ)) (rems : List (ℝ × ℝ)),
     (∀ x ∈ (derivsEsc normM t tcc 0 md stars rems).1, x = 0) ∧
     (∀ x ∈ (derivsEsc normM t tcc 0 md stars rems).2.1, x = 0) ∧
@@ -371,6 +395,7 @@ theorem C03_partial : Statement where
   pre_N := pre_N_sum
   pre_M := pre_M_sum
   pre_uniform := pre_uniform
+  nothing_depletable := nothing_depletable
   integrated := fun Ntot rate t0 t1 hle hr h =>
     Conserve.eq_integral_of_rate Ntot rate t0 t1 hle (fun t ht => by simpa using h t ht) hr
   post_N := post_N_sum
